@@ -227,11 +227,6 @@ def one_random_db(ctx, src, pre_merge, case_seed, n_reads, path, drop_stats=Fals
     except Exception:  # noqa
         return None, [], [], False
     db.conn.close()
-    if drop_stats:              # a database WITHOUT the statistics table (as written by other versions): opening it and reading from it still writes nothing
-        c0 = sqlite3.connect(path)
-        c0.execute("DROP TABLE IF EXISTS sqlite_stat1")
-        c0.commit()
-        c0.close()
     if drop_stats or pre_merge:     # the database went through an update() (a second meta row, counters written again) before it is opened for reading
         try:
             with dbio.quiet():
@@ -242,6 +237,11 @@ def one_random_db(ctx, src, pre_merge, case_seed, n_reads, path, drop_stats=Fals
                 dbw.conn.close()
         except Exception:  # noqa
             pass
+    if drop_stats:              # a database WITHOUT the statistics table (as written by other versions): opening it and reading from it still writes nothing
+        c0 = sqlite3.connect(path)
+        c0.execute("DROP TABLE IF EXISTS sqlite_stat1")
+        c0.commit()
+        c0.close()
     objects0 = schema_objects(path)
     content0 = G.canon_snap(dbio.proj_file(path))
     import warnings
